@@ -18,7 +18,14 @@ class Conn:
         return f'conn{self.n}'
 
 
+def _native_views():
+    C.GOT = lambda log, c: any(e[0] is c for e in log)
+    C.SENT_MOD = lambda log: log[-1][1]
+    C.SENT_LEVEL = lambda log: log[-1][2]
+
+
 def _handler(table, log):
+    _native_views()
     from frappy.logging import RemoteLogHandler
     h = RemoteLogHandler()
     h.subscriptions = {m: dict(inner) for m, inner in table.items()}
